@@ -18,9 +18,19 @@ Definition keys_present (d : envdef) (o : iobs) : bool :=
   | _ => true
   end.
 
+(* "... with diagnostics describing the problem": when an environment is OPENED (not merely checked) every value can be
+   computed unless something failed, so an unknown value anywhere in the result of a run that reported no error is a
+   failure that was swallowed *)
+Definition silent_failure (W : world) (o : iobs) : bool :=
+  match o with
+  | IObs (Some v) false _ =>
+      negb (w_check W) && forallb (fun kv => negb (x_has_unknown (snd kv))) (w_ctx W) && x_has_unknown v
+  | _ => false
+  end.
+
 Definition spec_fail (c : case) : bool :=
   match c with
-  | CEval _ d _ o => bad_obs o || negb (keys_present d o)
+  | CEval _ d W o => bad_obs o || negb (keys_present d o) || silent_failure W o
   | CRaw os => existsb bad_obs os
   end.
 
